@@ -2,6 +2,18 @@
 """Regenerates MANIFEST.json from the table below (run after adding a check)."""
 import json, subprocess
 CHECKS = {
+ "C01": dict(level="fault_enumeration", ref="2/C01 + 1.9",
+   text="Each generated history is run once under the I/O tap; every crash point (prefix of the recorded file-mutation stream; the quick tier takes every boundary next to a step end plus every third other one) is turned into an on-disk image, opened and read back: the rows of every transaction acknowledged before the crash point must be there (the one commit in flight may be whole or absent). Crash points of one history are enumerated, histories are sampled. Crash points inside checkpoints and some transaction shapes are excluded by open findings (counted in the evidence).",
+   note="Trusted: the crash model (prefixes of the recorded DBFile mutation stream, no torn/reordered writes), the I/O tap hook, the SQL reference model for the acknowledged state; histories whose live run diverges from the model are abandoned and counted.",
+   technique="property-based testing with fault injection: generated histories x enumerated crash points (recorded I/O prefix replay), reference-model oracle, shrinking of the history"),
+ "C02": dict(level="fault_enumeration", ref="2/C02 + 1.9",
+   text="Same recording and crash-point enumeration as C01, with small caches so that uncommitted pages are stolen; the reopened contents must equal the acknowledged model state exactly (plus, possibly, the single in-flight commit, whole): nothing of an open, rolled-back or failed transaction may be visible.",
+   note="Trusted: the crash model (prefixes of the recorded DBFile mutation stream, no torn/reordered writes), the I/O tap hook, the SQL reference model for the acknowledged state; histories whose live run diverges from the model are abandoned and counted.",
+   technique="property-based testing with fault injection: generated histories x enumerated crash points, exact-state reference-model oracle"),
+ "C08": dict(level="fault_enumeration", ref="2/C08 + 1.9",
+   text="Same recording and crash points; for every image: open must succeed, a fixed usability probe must work and leave other tables unchanged, closing and opening again must change nothing, and (nested crash, depth 1) an image cut inside recovery's own writes and reopened must give the same contents as the uninterrupted recovery. Crash points strictly inside a checkpoint are excluded by an open finding; the point 'recovery completed, then crash' is always checked.",
+   note="Trusted: the crash model (prefixes of the recorded DBFile mutation stream, no torn/reordered writes), the I/O tap hook, the SQL reference model for the acknowledged state; histories whose live run diverges from the model are abandoned and counted.",
+   technique="property-based testing with fault injection incl. nested faults during recovery; metamorphic convergence oracle (no opinion on contents needed) plus usability probe"),
  "C04": dict(level="exploration", ref="2/C04",
    text="Statement-level schedules of 2-3 concurrently open sessions plus autocommit statements (the single harness thread owns the schedule, so every interleaving is deterministic and replayable) are checked (a) against a snapshot-isolation reference model: every SELECT inside a session, every affected-row count, commit outcomes and the committed state; (b) model-free on the engine alone: a rollback or an uncommitted write never changes what a fresh reader sees, and a session that repeats a SELECT without writing in between gets the same rows. Sampling of schedules; UPDATE inside sessions and write-write conflicts are excluded from (a) by open findings, (b) still covers conflicting deletes.",
    note="Trusted: the SI model (harness/src/sqlmodel.rs Model/Txn) and the schedule interpreter; tables without constraints; no DDL after setup; only the outcome of first-committer-wins is asserted.",
